@@ -136,12 +136,32 @@ Qed.
 Theorem stream_dec_terminates up data : cmds_dec up data <> OutOfFuel.
 Proof. apply (StreamProofs.stream_dec_terminates payload psize lookup whole dec_fuel_free). Qed.
 
-(* the restriction is necessary: a DataFragment followed by another command
-   does not decode to the same sequence *)
-Example data_fragment_not_last :
-  exists cs bs, cmds_enc cs = Ok bs /\ cmds_dec false bs <> Ok cs
-    /\ forallb (FRW.wf_cmd false) cs = true.
+(* the statement of C18 for fragmentation streams at full strength, with the one exception:
+   every sequence of individually well-formed commands round-trips, or a DataFragment is
+   followed by another command (known finding C18-5) *)
+Theorem stream_roundtrip_or_known up (cs : list command) :
+  forallb (FRW.wf_cmd up) cs = true ->
+  (exists bs, cmds_enc cs = Ok bs
+     /\ length bs = fold_right Nat.add O (map cmd_size cs)
+     /\ bs = FRW.stream_bytes cs
+     /\ cmds_dec up bs = Ok cs)
+  \/ FRW.data_fragment_not_last cs = true.
 Proof.
-  exists [(8, Some (DataFragment 1 5 [9])); (3, Some (FragSessionDeleteReq 2))]. eexists.
-  split; [reflexivity|]. split; [|reflexivity]. vm_compute. discriminate.
+  intros H. destruct (FRW.data_fragment_not_last cs) eqn:E; [now right|left].
+  apply stream_roundtrip. unfold FRW.wf_stream. rewrite wf_stream_split.
+  unfold FRW.wf_cmd in H. rewrite H. unfold FRW.data_fragment_not_last in E. now rewrite E.
+Qed.
+
+(* the exception is real (audit input): DataFragment{FragIndex 1, N 2, aa bb} followed by
+   FragSessionStatusReq{FragIndex 1, Participants} encodes to 08 02 40 aa bb 01 03 without error and
+   decodes as one DataFragment with payload aa bb 01 03 *)
+Example data_fragment_not_last :
+  exists cs bs, forallb (FRW.wf_cmd false) cs = true /\ FRW.data_fragment_not_last cs = true
+    /\ cmds_enc cs = Ok bs /\ bs = [0x08; 0x02; 0x40; 0xaa; 0xbb; 0x01; 0x03]
+    /\ cmds_dec false bs = Ok [(8, Some (DataFragment 1 2 [0xaa; 0xbb; 0x01; 0x03]))]
+    /\ cmds_dec false bs <> Ok cs.
+Proof.
+  exists [(8, Some (DataFragment 1 2 [0xaa; 0xbb])); (1, Some (FragSessionStatusReq 1 true))]. eexists.
+  split; [reflexivity|]. split; [reflexivity|]. split; [reflexivity|]. split; [reflexivity|].
+  split; [reflexivity|]. vm_compute. discriminate.
 Qed.
